@@ -430,3 +430,15 @@ def describe_cond(body, term, label):
     if c.kind in ("var", "multi"):
         return "var:%s=%s" % (c.trace.describe(), "true" if pol() else "false")
     return "other"
+
+
+def ordering(c, truth):
+    """normalise "the integer comparison `c` evaluates to `truth`" to (lo, hi, strict): lo < hi if strict else lo <= hi.
+    Any way of writing the same test (operands swapped, negated operator, else-branch) gives the same triple."""
+    if c.kind != "bin" or c.op not in ("Lt", "Le", "Gt", "Ge"):
+        return None
+    a, b = c.a, c.b
+    lo, hi, strict = {"Lt": (a, b, True), "Le": (a, b, False), "Gt": (b, a, True), "Ge": (b, a, False)}[c.op]
+    if truth:
+        return lo, hi, strict
+    return hi, lo, not strict
